@@ -10,6 +10,7 @@ C17 — line-protocol driver of the model (core only).  One op per line, one ans
   reopen                                Close + Init on the same directory
   crashrotate                           Init on the image of a crash inside `rotate` (correspondence only)
   first | last | term <i> | ents <lo> <hi> <max> | snap | hs | files
+  renumber <d>                          the entry files were renamed while the store was closed: every file id + d
   new <rw>                              as `new`; the file wrapper the real store runs on (1 | 2) is not part of the model
   pend <save… | mksnap… | delbefore…>   remember the mutation list of the operation on the current state (Crash.lean)
   muts                                  that list: count, hash, head and tail of the canonical texts
@@ -191,6 +192,13 @@ def step (p : Params) (s : State) (line : String) : State × String :=
   match (line.trimAscii.toString.splitOn " ").filter (· ≠ "") with
   | ["new"] => (initState p, "ok")
   | ["new", rw] => if rw == "1" || rw == "2" then (initState p, "ok") else (s, "bad-op")
+  | ["renumber", d] =>
+    -- the entry files were renamed while the store was closed: every file id grows by d
+    match d.toNat? with
+    | some d =>
+      let re (f : LogFile) : LogFile := { f with fid := f.fid + d }
+      ({ s with files := s.files.map re, current := re s.current }, "ok")
+    | none => (s, "bad-op")
   | ["save", hs, sn, first, groups] =>
     match parseHS hs, parseSnap sn, first.toNat?, first.toNat?.bind (parseGroups · groups) with
     | some hs, some sn, some _, some ents =>
